@@ -292,7 +292,8 @@ class V(object):
         if not isinstance(o, dict):
             return self.add(path, "kind", "not an object")
         props = c["properties"]
-        toplevel_ext = isinstance(o.get("extensions"), dict) and any(isinstance(e, dict) and e.get("extension_type") == "toplevel-property-extension" for e in o["extensions"].values())
+        # (2.1 only: STIX 2.0 has no extension mechanism; in 2.1 the library lets a toplevel-property-extension add properties - even 'extensions' itself - to any class)
+        toplevel_ext = self.version == "2.1" and isinstance(o.get("extensions"), dict) and any(isinstance(e, dict) and e.get("extension_type") == "toplevel-property-extension" for e in o["extensions"].values())
         for name in o:
             if name not in props and not toplevel_ext:
                 self.add("%s.%s" % (path, name) if path else name, "unknown-property", "property %r is not defined for %s" % (name, c["name"]))
